@@ -57,6 +57,15 @@ def make_ts(a):
                 anc = a["sites"][m["site"]]["anc"]
                 keep.append(dict(m, parent=-1, der=m["der"] if m["der"] != anc else (anc + 1) % 4))
         a["muts"] = keep
+        nsit = len(a["sites"])
+        if all(any(m["site"] == j for m in keep) for j in range(nsit)):
+            # LdCalculator refuses sites that do not carry exactly one mutation: keep one site without any (the last one loses its mutation when
+            # there are three or more sites, otherwise a site is added behind the others if there is room)
+            free = [x for x in range(a["L"]) if x > max(s_["pos"] for s_ in a["sites"])]
+            if nsit >= 3:
+                a["muts"] = [m for m in keep if m["site"] != nsit - 1]
+            elif free:
+                a["sites"] = a["sites"] + [dict(pos=free[0], anc=0)]
     t = gen.build_tables(a, metadata=True)
     rng = random.Random(5)
     abstr.decorate(t, rng, n_ind=2, n_pop=1)
@@ -120,6 +129,10 @@ def call(ts, tree, variant, name, kinds, args):
         "ts.trait_like_general_stat": lambda l: ts.sample_count_stat([l], lambda v: v, 1, mode="node", strict=False),
         "ts.extend_haplotypes_noop": lambda l: ts.simplify(l, keep_unary=True, filter_nodes=False),
         "ts.delete_sites": lambda l: ts.delete_sites(l),
+        "ts.relatedness_vector_nodes": lambda l: ts.genetic_relatedness_vector(np.ones((ts.num_samples, 1)), mode="branch", centre=False, nodes=l),
+        "tables.union_mapping_checked": lambda u: ts.dump_tables().union(ts.dump_tables(), [u] + [tskit.NULL] * (ts.num_nodes - 1), check_shared_equality=True),
+        "tables.union_mapping_unchecked": lambda u: ts.dump_tables().union(ts.dump_tables(), [u] + [tskit.NULL] * (ts.num_nodes - 1), check_shared_equality=False),
+        "ts.union_mapping_unchecked": lambda u: ts.union(ts, [tskit.NULL] * (ts.num_nodes - 1) + [u], check_shared_equality=False),
         "ts.diversity_windows": lambda w: ts.diversity(windows=w, mode="branch"), "ts.afs_windows": lambda w: ts.allele_frequency_spectrum(windows=w),
         "ts.divergence_matrix_windows": lambda w: ts.divergence_matrix(windows=w, mode="branch"),
         "ts.general_stat_windows": lambda w: ts.general_stat(np.ones((ts.num_samples, 1)), lambda v: v, 1, windows=w, mode="site", strict=False),
@@ -208,6 +221,7 @@ def discover():
             nmeth += 1
             params = list(sig.parameters.values())[1:]
             bools = [p.name for p in params if isinstance(p.default, bool)]
+            has_mode = any(p.name == "mode" and isinstance(p.default, str) for p in params)
             for p in params:
                 k = KIND_OVERRIDE.get(("%s.%s" % (cn, n), p.name)) or kind_of(p.name)
                 if k is None:
@@ -215,6 +229,16 @@ def discover():
                 out.append(["%s.%s:%s" % (cn, n, p.name), k])
                 for b in bools:
                     out.append(["%s.%s:%s:%s" % (cn, n, p.name, b), k])
+                if has_mode and k in ("id", "id_list", "id_list_list", "index_tuples"):
+                    # identifier slots of the statistics are also reached in the other modes, alone and together with every flipped boolean
+                    # (genetic_relatedness_vector takes nodes= only with centre=False, and has no site mode)
+                    for md in ("branch", "node", "site"):
+                        if md == [q.default for q in params if q.name == "mode"][0]:
+                            continue
+                        out.append(["%s.%s:%s::%s" % (cn, n, p.name, md), k])
+                        if md == "branch":
+                            for b in bools:
+                                out.append(["%s.%s:%s:%s:%s" % (cn, n, p.name, b, md), k])
     return out, nmeth
 
 
@@ -300,7 +324,8 @@ def call_auto(ts, objs, name, kind, arg, S):
     parts = name.split(":")
     cn, mn = parts[0].split(".")
     pname = parts[1]
-    flip = parts[2] if len(parts) > 2 else None
+    flip = parts[2] if len(parts) > 2 and parts[2] else None
+    mode = parts[3] if len(parts) > 3 else None
     obj = objs(cn)
     m = getattr(obj, mn)
     params = list(inspect.signature(m).parameters.values())
@@ -311,6 +336,8 @@ def call_auto(ts, objs, name, kind, arg, S):
     if flip:
         d = [p.default for p in params if p.name == flip][0]
         kw[flip] = not d
+    if mode:
+        kw["mode"] = mode
     r = m(**kw)
     if inspect.isgenerator(r) or hasattr(r, "__next__"):
         r = [x for _, x in zip(range(50), r)]
